@@ -51,7 +51,10 @@ pub trait Keychain: Sized + Clone {
     fn derive_key(&self, amount: u64, id: &Identifier, switch: SwitchCommitmentType) -> (r: Result<SecretKey, grin_keychain::Error>)
         ensures r matches Ok(k) ==> k == self.spec_derive(amount, *id);
 }
-pub trait NodeClient: Sized {
+pub uninterp spec fn kernel_on_chain(excess: Commitment) -> bool;   // the node reports a kernel with this excess
+pub trait NodeClient: Sized + Clone {
+    fn get_kernel(&mut self, excess: &Commitment, min_height: Option<u64>, max_height: Option<u64>) -> (r: Result<Option<(TxKernel, u64, u64)>, Error>)
+        ensures r matches Ok(Some(k)) ==> kernel_on_chain(*excess);
     // chain tip (height, hash) as reported by the node — any value, may fail
     fn get_chain_tip(&self) -> (r: Result<(u64, String), Error>)
         ensures r matches Err(e) ==> store_err(e);
@@ -339,4 +342,14 @@ impl PartialEq for SecretKey {
 impl vstd::std_specs::cmp::PartialEqSpecImpl for SecretKey {
     open spec fn obeys_eq_spec() -> bool { true }
     open spec fn eq_spec(&self, other: &Self) -> bool { self.0@ == other.0@ }
+}
+
+pub struct DalekSecretKey { pub k: [u8; 32] }
+impl DalekSecretKey {
+    #[verifier::external_body]
+    pub fn from_bytes(b: &[u8; 32]) -> (r: Result<DalekSecretKey, Ed25519Error>) ensures r matches Ok(k) ==> k.k == *b { unimplemented!() }
+}
+impl From<&DalekSecretKey> for DalekPublicKey {
+    #[verifier::external_body]
+    fn from(k: &DalekSecretKey) -> (r: DalekPublicKey) ensures r == spec_ed25519_pub(SecretKey(k.k)) { unimplemented!() }
 }
